@@ -91,7 +91,13 @@ def parse_c_param(text, want_name=True):
         raise ParseError("variadic parameter")
     m = re.match(r"^(.*?)\(\s*\*\s*(\w*)\s*\)\s*\((.*)\)$", s, re.S)
     if m:
-        return {"base": ("funptr", 0), "ptr": 0, "name": m.group(2), "array": None, "unsigned": False}
+        res = {"base": ("funptr", 0), "ptr": 0, "name": m.group(2), "array": None, "unsigned": False}
+        try:
+            res["fp_ret"] = parse_c_param(m.group(1), want_name=False)
+            res["fp_params"] = parse_c_proto_params(m.group(3))
+        except ParseError as e:
+            res["fp_error"] = str(e)
+        return res
     array = None
     m = re.match(r"^(.*?)((?:\[[^\]]*\])+)$", s)
     if m:
@@ -627,3 +633,31 @@ def result_interop(cret, fres, structs_c=None, types_f=None):
     if cret["base"][0] == "struct" and fres["base"][0] == "derived":
         return struct_match(cret["base"][1], fres["base"][1], structs_c, types_f)
     return scalar_match(cret["base"], fres["base"]), "result type/size differs"
+
+
+def callback_interop(cparam, aiface, structs_c=None, types_f=None):
+    """C function-pointer parameter (parse_c_param with fp_ret / fp_params) vs the abstract interface the dummy
+    procedure is declared with.  Returns list of (position or "result" or "count", ok, why)."""
+    out = []
+    if "fp_error" in cparam or "fp_params" not in cparam:
+        return [("parse", None, cparam.get("fp_error", "function pointer type not parsed"))]
+    if aiface["errors"]:
+        return [("parse", False, "abstract interface %s: %s" % (aiface["fname"], aiface["errors"][:2]))]
+    ps = cparam["fp_params"]
+    if len(ps) != len(aiface["args"]):
+        return [("count", False, "the C function pointer takes %d parameters, abstract interface %s has %d dummies" % (
+            len(ps), aiface["fname"], len(aiface["args"])))]
+    for k, (cp, an) in enumerate(zip(ps, aiface["args"])):
+        fd = aiface["decls"].get(an)
+        if fd is None:
+            out.append((k + 1, False, "dummy %s of %s has no declaration" % (an, aiface["fname"])))
+            continue
+        ok, why = interop(cp, fd, structs_c, types_f)
+        out.append((k + 1, ok, "%s | Fortran `%s`" % (why, fd["text"])))
+    fres = aiface["decls"].get(aiface["result"]) if aiface["result"] else None
+    if aiface["result"] and fres is None:
+        out.append(("result", False, "function %s declares no result type" % aiface["fname"]))
+    else:
+        ok, why = result_interop(cparam["fp_ret"], fres, structs_c, types_f)
+        out.append(("result", ok, "%s | Fortran `%s`" % (why, (fres or {}).get("text", "subroutine"))))
+    return out
